@@ -37,3 +37,18 @@ SPEC = dict(
 
 def run(tier, seed):
     return svlib.run_spec(SPEC, tier, seed)
+
+MANIFEST = dict(
+    claimed=True,
+    technique="Lean 4 invariant proofs by induction over the step relation of a multi-process file-system model (any number of "
+              "processes, any interleaving, crashes) + step-by-step correspondence with real child processes through hook H4",
+    text="proof (partial): C25_visible_partial / C25_visible_partial_observed hold for every reachable state of the model with "
+         "unboundedly many processes when lock() publishes in isolation; C25_stale_cleared (all schedules) and "
+         "C25_stale_cleared_run; the full statement is FALSE of the code (C25_visible_false, C25_visible_false_two_lockers, "
+         "C25_visible_unrestricted_false proved by explicit schedules and replayed on real processes) — those two races are "
+         "known findings; the truncate window was repaired by a fix: commit. Model tied to the real PidFileLocking by "
+         "driving 2-3 real processes one file-system operation at a time.",
+    note="trusted: Lean kernel + 3 standard axioms, POSIX rename/unlink semantics, hook H4 placement, harness. Partial: the "
+         "read-decide-unlink TOCTOU and two concurrent lock() calls lose a live flag (known_findings.json: "
+         "C25-stale-unlink-toctou, C25-concurrent-lockers).",
+)
